@@ -431,7 +431,8 @@ private:
 
 		// The event must be obtained in its own statement: the evaluation order of function arguments is
 		// unspecified, so the arguments may be moved into the tuple before getEvent reads them.
-		const EventType_ event = GetEvent::getEvent(std::forward<T>(first), args...);
+		// `first` is stored below: the policy gets it as an lvalue (see HeterEventDispatcher::doDispatch).
+		const EventType_ event = GetEvent::getEvent(first, args...);
 		if(doEnqueueItem(QueuedItemType(
 			PrototypeInfo::index,
 			event,
